@@ -174,6 +174,11 @@ func (p *OIDCProvider) redeemRefreshToken(ctx context.Context, s *sessions.Sessi
 	// session will not contain an id token.
 	// If it doesn't it's probably better to retain the old one
 	if newSession.IDToken != "" {
+		// The email is as mandatory after a refresh as it is at login
+		// (see EnrichSession): do not adopt an identity without one.
+		if newSession.Email == "" {
+			return errors.New("neither the id_token nor the profileURL set an email")
+		}
 		s.IDToken = newSession.IDToken
 		s.Email = newSession.Email
 		s.User = newSession.User
